@@ -4,7 +4,29 @@ TRACT_PROBES = (('Lots 1 - 3, N/2NE/4, NE', '154n97w14', 'clean_qq'), ('Lot 2(38
 DESC_PROBES = (('T154N-R97W Sec 14: NE/4, Sec 15 - 16: W/2', ''), ('T154-R97 Sec 14: Lots 1 - 2', 'parse_qq'),
                ('T1S4N-R97W Sec 14: NE N2 of L1', ''), ('TIS4N-R9lW Sec 1: NE', 'ocr_scrub,clean_qq'),
                ('NE/4 of Section 14, Township 154, Range 97 West', 's'), ('nothing to see here', ''))
-N_PROBES = len(TRS_PROBES) + len(TRACT_PROBES) + len(DESC_PROBES)
+N_PROBES = len(TRS_PROBES) + len(TRACT_PROBES) + len(DESC_PROBES) + 1      # the last probe is the defaults probe
+DEFAULT_PAIRS = (('s', 'e'), ('n', 'w'), ('n', 'e'), ('s', 'w'))
+
+
+def observe_defaults():
+    """Twp/Rge built from direction-less numbers under each pair of MasterConfig defaults (restored afterwards)"""
+    import pytrs
+    MC = pytrs.MasterConfig
+    save = (MC.default_ns, MC.default_ew)
+    out = []
+    try:
+        for ns, ew in DEFAULT_PAIRS:
+            MC.default_ns, MC.default_ew = ns, ew
+            out.append((pytrs.TRS.from_twprgesec(154, 97, 14).trs, pytrs.TRS.from_twprgesec('154', '97', 14).trs,
+                        pytrs.Tract.from_twprgesec('NE/4', 7, 8, 9).trs, pytrs.TRS.from_twprgesec('154n', 97, 14).trs))
+    finally:
+        MC.default_ns, MC.default_ew = save
+    return ('defaults',) + tuple(out)
+
+
+def expected_defaults():
+    """what observe_defaults() must return: the defaults in force at the time of each call decide (spec, not code)"""
+    return ('defaults',) + tuple((f'154{ns}97{ew}14', f'154{ns}97{ew}14', f'7{ns}8{ew}09', f'154n97{ew}14') for ns, ew in DEFAULT_PAIRS)
 OPS = ('parse_other', 'other_defaults_then_restore', 'clear_cache', 'cache_off', 'cache_on', 'prewarm', 'mutate_trs_dict',
        'mutate_exports', 'parse_same_under_other_defaults', 'parse_other_every_setting')
 SETTINGS_TOUR = ('ocr_scrub', 'clean_qq,parse_qq', 'segment,sec_within', 'copy_all', 'sec_colon_required', 'sec_colon_cautious',
@@ -13,6 +35,8 @@ SETTINGS_TOUR = ('ocr_scrub', 'clean_qq,parse_qq', 'segment,sec_within', 'copy_a
 
 def observe(pi):
     import pytrs
+    if pi == N_PROBES - 1:
+        return observe_defaults()
     if pi < len(TRS_PROBES):
         s = TRS_PROBES[pi]
         t = pytrs.TRS(s)
@@ -88,6 +112,10 @@ def apply_op(op, pi):
             d2.clear()
         return None
     # mutate_exports: whatever a previous parse of the same probe handed out is scribbled on
+    if pi == N_PROBES - 1:
+        t = pytrs.TRS.from_twprgesec(154, 97, 14)
+        pytrs.trs_to_dict(t.trs).clear()
+        return None
     if pi >= len(TRS_PROBES) + len(TRACT_PROBES):
         text, cfg = DESC_PROBES[pi - len(TRS_PROBES) - len(TRACT_PROBES)]
         d = pytrs.PLSSDesc(text, config=cfg)
